@@ -4,7 +4,8 @@ from .. import gtlib
 from ..gtlib import cmat, cbool, Obs, jarr
 from . import common as C
 
-PROPS_FILE = "props/C01.v"
+PROPS_FILE = ["props/C01.v", "props/GI7.v"]
+TRUSTED_EXTRA = ["props/GI7.v (the mass of a product as an iterated improper Riemann integral, at Coq's real numbers) depends on the standard-library axioms ClassicalDedekindReals.sig_not_dec, sig_forall_dec, FunctionalExtensionality.functional_extensionality_dep, Classical_Prop.classic, Epsilon.epsilon_statement"]
 IMPORTS = ""
 RULE = ("cases = factorial design over factor kind {general, onerank (a third of them with some NEGATIVE weights g, product still positive definite), linear, constant, measure, pdf} x op "
         "{multiply, *, hadamard, product, factor.product} x update_full x measure-cache-warm, assigned round-robin "
